@@ -35,11 +35,14 @@ class Translate(Domain):
         return Translate(domain=new_domain, translation=new_translate_fn)
 
     def _contains(self, points, params=Points.empty()):
-        translate_values = self.translate_fn(points.join(params)).reshape(
-            -1, self.space.dim
-        )
+        all_points = points.join(params)
+        translate_values = self.translate_fn(all_points).reshape(-1, self.space.dim)
         shifted_points = points[:, list(self.space.keys())].as_tensor - translate_values
-        # points[:, list(self.space.keys())] = Points(shifted_points, self.space)
+        # every variable that is not a coordinate of this domain (e.g. the variables
+        # of the other factor of a product) is a parameter for the inner domain
+        other_variables = [v for v in all_points.space.keys() if v not in self.space]
+        if len(other_variables) > 0:
+            params = all_points[:, other_variables]
         return self.domain._contains(Points(shifted_points, self.space), params)
 
     def sample_random_uniform(
